@@ -11,7 +11,7 @@ import PdfModel.Model.Xref
   parse_xref_stream_and_trailer                   parseSections
 
   `usize`/`u64` arithmetic is modelled with overflow-checks on (the harness and the test profile build
-  that way): `num_entries * (w0 + w1 + w2)` panics when the product does not fit 64 bits.
+  that way): the `+=` of `read_u64_from_stream` panics when the sum does not fit 64 bits.
 -/
 
 namespace Xref
@@ -64,18 +64,22 @@ def readEntries (w0 w1 w2 : Nat) : Nat → List UInt8 → List XRef → Out (Lis
     | .ok (e, rest) => readEntries w0 w1 w2 n rest (e :: acc)
     | .err => .err | .panic => .panic | .oof => .oof
 
-/-- `parse_xref_section_from_stream`; `width` is the `/W` array as read (any length). -/
+/-- `parse_xref_section_from_stream`; `width` is the `/W` array as read (any length).
+    (The code after the repair of D34: the row width is summed with `checked_add`, a row width of zero is
+    refused, and the number of rows the data can hold is `data.len() / entry_len` — no product that could
+    overflow.) -/
 def parseSection (first n : Nat) (width : List Nat) (data : List UInt8) (allowErr : Bool) :
     Out (Sub × List UInt8) :=
   match width with
   | [w0, w1, w2] =>
     let row := w0 + w1 + w2
-    if row ≥ U64 then .panic                                    -- `w0 + w1 + w2` overflow
-    else if n * row ≥ U64 then .panic                           -- `num_entries * (…)` overflow
+    if row ≥ U64 then .err                                      -- `checked_add` fails: bail!
+    else if row = 0 then .err                                   -- "xref stream entries have zero width"
     else
+      let maxEntries := data.length / row
       let n' : Out Nat :=
-        if n * row > data.length then
-          if allowErr then (if row = 0 then .panic else .ok (data.length / row)) else .err
+        if n > maxEntries then
+          if allowErr then .ok maxEntries else .err
         else .ok n
       match n' with
       | .ok n' =>
